@@ -482,3 +482,136 @@ Proof. vm_compute. repeat split; repeat constructor. Qed.
 Example C05_example_threads : Forall (fun ops => ops_ok [] ops = true) ex_threads /\
   exists s, trun (tinit ex_threads) [TStep 1; TStep 1] = Some s /\ sections_left s = 2%nat /\ tstep s (TStep 0) = None.
 Proof. exact ex_threads_ok. Qed.
+
+(* ===================================================================================== *)
+(* ERROR NOTIFICATION AGAINST PENDING FRAMES (strengthening).  Clause (a) under every          *)
+(* scheduling of the error notification against pending frames: between the byte stream and    *)
+(* the fragment reader sits the call's exchange (mex.go): a bounded queue filled by the       *)
+(* connection reader (forwardPeerFrame), emptied by the caller (recvPeerFrame), with an error *)
+(* latch that any goroutine may set (stopExchanges after a connection error).                 *)
+(* Definitions: Spec/ChanProg.v (the vocabulary of channel programs), Gen/GenMexProg.v        *)
+(* (mexForwardPeerFrame, mexRecvPeerFrame: REGENERATED from mex.go on every run by            *)
+(* go2v/chanprog.go), Model/MexProg.v (meaning of a channel program on an exchange;            *)
+(* prog_step_obs), Model/Mex.v (the interleaving system of C04: step_obs, run, ghost history  *)
+(* g_received, s_wire), Proofs/MexP.v (window), Proofs/ErrQP.v (prog_run, frs_of, gap_fs),    *)
+(* Model/ErrQ.v (the scenario semantics the engine errq compares the implementation with).    *)
+(* ===================================================================================== *)
+From Verif Require Import Spec.ChanProg Gen.GenMexProg Spec.Demux Model.Mex Proofs.MexP Model.MexProg Proofs.MexProgP
+  Model.ErrQ Proofs.ErrQP.
+
+(* THE TIE TO THE SOURCE.  The order of the tests in messageExchange.forwardPeerFrame -- context
+   error, frameDropped, then the select {room in recvCh | context done | error latch: one last
+   non-blocking send, else set frameDropped and refuse} -- and in messageExchange.recvPeerFrame --
+   context error, then select {a queued frame (checked against the exchange's id) | context done |
+   error latch: one last non-blocking receive, else the latched error} -- as regenerated from
+   mex.go, interpreted as one atomic action per run-to-select / per communication, give EXACTLY
+   the steps LFwdCheck, LFwdSend, LFwdCtxDone, LFwdErr, LRecvCheck, LRecvFrame, LRecvCtxDone,
+   LRecvErr of the exchange model, in every state.  Any edit of the two functions that changes
+   a test, a case, a result or their order changes the generated programs and breaks this proof. *)
+Theorem C05_exchange_steps_generated : forall s l,
+  prog_step_obs mexForwardPeerFrame mexRecvPeerFrame s l = step_obs true s l.
+Proof. exact prog_step_generated. Qed.
+
+(* ... hence every schedule of the regenerated system is a schedule of the model (and C04's
+   theorems about [run] hold of it) *)
+Theorem C05_generated_runs : forall ls, prog_run ls = run ls.
+Proof. exact prog_run_is_run. Qed.
+
+(* NO GAP => SUCCESS IS WHAT WAS SENT.  For EVERY schedule of the exchange set -- any
+   interleaving of frame arrivals (of any number of calls), deliveries, refusals (context done;
+   error latch set with a full buffer; an earlier frame dropped), takes by the receiver, error
+   notifications from any goroutine (stopExchanges), shutdowns, expiries -- and every exchange e:
+   if the frames that arrived for e carry, in order, an initial part of the fragments fs the
+   peer's writer produced for (a1,a2,a3), then after ANY number k of frames taken by e's receiver
+   the fragments it holds are an initial part of fs (no hole, no reordering, nothing foreign), the
+   caller's three reads on them give an error or exactly [a1;a2;a3], and they give a success only
+   when the receiver holds ALL of fs. *)
+Theorem C05_queue_success_is_sent : forall ls s r e (payload : Z -> frag) fs ck0 a1 a2 a3,
+  prog_run ls = Some s -> nth_error (s_mexes s) r = Some e ->
+  prefix (frs_of payload (window e (s_wire s))) fs ->
+  wf fs -> ck_new (first_ctype fs) = Some ck0 -> ck_chain ck0 fs ->
+  denote (chunks_of fs) = [a1; a2; a3] ->
+  forall n1 n2 n3, 0 < n1 -> 0 < n2 -> 0 < n3 ->
+  forall k, let got := frs_of payload (firstn k (g_received (m_g e))) in
+    prefix got fs /\
+    (call_outcome n1 n2 n3 got = OErr \/ call_outcome n1 n2 n3 got = OOk [a1; a2; a3]) /\
+    (call_outcome n1 n2 n3 got <> OErr -> got = fs).
+Proof. exact errq_success_is_sent. Qed.
+
+(* ... and for ANY frames a peer may send (C05_success_is_denotation behind the exchange): a
+   success is the denotation of a checksum-verified well-formed message that is an INITIAL PART,
+   in arrival order, of the frames that reached the exchange -- never of a sequence with a frame
+   left out *)
+Theorem C05_queue_success_is_denotation : forall ls s r e (payload : Z -> frag) n1 n2 n3 k args,
+  0 < n1 -> 0 < n2 -> 0 < n3 ->
+  prog_run ls = Some s -> nth_error (s_mexes s) r = Some e ->
+  (forall t, frag_parsed (payload t)) ->
+  call_outcome n1 n2 n3 (frs_of payload (firstn k (g_received (m_g e)))) = OOk args ->
+  exists pre post c0, frs_of payload (window e (s_wire s)) = pre ++ post /\ wf pre /\
+    ck_new (first_ctype pre) = Some c0 /\ ck_chain c0 pre /\ f_more (last pre dfrag) = false /\
+    args = denote (chunks_of pre).
+Proof. exact errq_success_is_denotation. Qed.
+
+(* THE CLAUSE HAS TEETH.  The same statement is FALSE of the code without the frameDropped flag
+   (Mex.v's [run_pinned]; the pinned tree, finding c04:frame-gap-after-error-latch): with frames
+   that carry no checksum, the schedule {frames 1, 2 queued; error notified; frame 3 dropped on
+   the full buffer; the receiver takes frame 1; frame 4 accepted} ends in SUCCESS with arg3 =
+   [5;6;8] where the peer sent [5;6;7;8]. *)
+Theorem C05_queue_gap_pinned_refuted : exists ls s e args,
+  run_pinned ls = Some s /\ nth_error (s_mexes s) 0 = Some e /\
+  frs_of gap_payload (window e (s_wire s)) = gap_fs /\
+  call_outcome 512 512 512 (frs_of gap_payload (g_received (m_g e))) = OOk args /\
+  args <> denote (chunks_of gap_fs).
+Proof. exact errq_pinned_refuted. Qed.
+
+(* THE SCENARIO SEMANTICS IS A SCHEDULE.  Every state of the scenario model that the engine errq
+   compares the real client with (Model/ErrQ.v: the peer writes frame by frame, the receiver takes
+   frame by frame, the connection error comes from a failed write / a failed ping send / a protocol
+   error frame) is reached by a schedule of the regenerated system ... *)
+Theorem C05_errq_scenario_reachable : forall id cap kind code n evs,
+  exists ls, prog_run ls = Some (x_st (x_run id cap kind code n evs)).
+Proof. exact errq_scenario_reachable. Qed.
+
+(* ... so a success predicted by the scenario model is the denotation of a verified initial part
+   of the frames that reached the exchange *)
+Theorem C05_errq_scenario_success : forall id cap kind code n evs (payload : Z -> frag) args,
+  (forall t, frag_parsed (payload t)) ->
+  let x := x_run id cap kind code n evs in
+  call_outcome 512 512 512 (frs_of payload (x_recvd x)) = OOk args ->
+  exists e pre post c0, nth_error (s_mexes (x_st x)) 0 = Some e /\
+    frs_of payload (window e (s_wire (x_st x))) = pre ++ post /\ wf pre /\
+    ck_new (first_ctype pre) = Some c0 /\ ck_chain c0 pre /\ f_more (last pre dfrag) = false /\
+    args = denote (chunks_of pre).
+Proof. exact errq_scenario_success. Qed.
+
+Print Assumptions C05_exchange_steps_generated.
+Print Assumptions C05_generated_runs.
+Print Assumptions C05_queue_success_is_sent.
+Print Assumptions C05_queue_success_is_denotation.
+Print Assumptions C05_queue_gap_pinned_refuted.
+Print Assumptions C05_errq_scenario_reachable.
+Print Assumptions C05_errq_scenario_success.
+
+(* ---------------- non-vacuity ---------------- *)
+(* the premises of C05_queue_success_is_sent hold for four checksum-less fragments ... *)
+Example C05_example_gap_premises :
+  wf gap_fs /\ ck_new (first_ctype gap_fs) = Some (mkCk 0 0) /\ ck_chain (mkCk 0 0) gap_fs /\
+  denote (chunks_of gap_fs) = [[]; [3; 4]; [5; 6; 7; 8]].
+Proof. exact gap_fs_premises. Qed.
+
+(* ... and on the regenerated system the schedule that breaks the pinned code refuses frame 4:
+   the exchange is marked dropped, LFwdSend is not enabled, frames 1, 2 were delivered *)
+Example C05_example_gap_refused : exists s e,
+  prog_run (firstn 16 gap_trace) = Some s /\ nth_error (s_mexes s) 0 = Some e /\
+  prog_step s LFwdSend = None /\ map f_tag (g_delivered (m_g e)) = [1; 2] /\ m_dropped e = true.
+Proof. exact errq_gap_trace_generated. Qed.
+
+(* the scenario model on the words AAEATA (error against a full buffer, then a frame, a take, a
+   frame) and AAAETA (the third frame in the reader's hands when the error comes), error kinds 1
+   and 3, four frames: the receiver gets frames 1, 2 and then the connection error; without an
+   error a lagging receiver gets all four *)
+Example C05_example_errq :
+  map (fun x => (x_res x, x_rerr x, map f_tag (x_recvd x)))
+      [x_run 7 2 1 11 4 [0;0;2;0;1;0]; x_run 7 2 1 11 4 [0;0;0;2;1;0]; x_run 7 2 3 13 4 [0;0;2;0;1;0]; x_run 7 2 0 10 4 [0;0;0;0;1;1]] =
+  [([0; 0; 11], 11, [1; 2]); ([0; 0; 11], 11, [1; 2]); ([0; 0; 13], 13, [1; 2]); ([0; 0; 0; 0], 0, [1; 2; 3; 4])].
+Proof. vm_compute. reflexivity. Qed.
